@@ -818,6 +818,52 @@ def parseOp (toks : List String) : Option SOp :=
   | ["pool", "end"] => some .finish
   | _ => none
 
+/-! ### Buffer group ids (`ReadBufPool::new` / `Drop`)
+
+Every pool registers its buffer ring under a group id taken from a process-wide 16-bit counter
+(`static ID`, src/io_uring/io.rs:43-53). The kernel refuses an id that is registered on the
+ring (`EEXIST`). -/
+
+/-- The buffer groups registered on one ring. -/
+structure Reg where
+  live : List Nat := []
+  deriving Repr, DecidableEq
+
+/-- `IORING_REGISTER_PBUF_RING`. -/
+def Reg.register (r : Reg) (id : Nat) : Reg × Bool :=
+  if id ∈ r.live then (r, false) else ({ live := id :: r.live }, true)
+
+/-- `IORING_UNREGISTER_PBUF_RING` (`Drop for ReadBufPool`). -/
+def Reg.unregister (r : Reg) (id : Nat) : Reg := { live := r.live.erase id }
+
+/-- `ReadBufPool::new` with the counter at `c` (ids are `c mod m`, `m = 2^16`): the counter
+advances whether or not the registration succeeds; when it fails the ring memory is given back
+and the error returned — no pool value exists yet, so no `Drop` runs and nothing is
+unregistered (io.rs:79-86). -/
+def newPool (r : Reg) (c m : Nat) : Reg × Nat × Option Nat :=
+  match r.register (c % m) with
+  | (r', true) => (r', c + 1, some (c % m))
+  | (r', false) => (r', c + 1, none)
+
+/-- Create and drop pools until a creation fails: registry, counter, number created, whether
+one failed. -/
+def churn (r : Reg) (c m : Nat) : Nat → Nat → Reg × Nat × Nat × Bool
+  | 0, k => (r, c, k, false)
+  | fuel + 1, k =>
+    match newPool r c m with
+    | (r', c', some id) => churn (r'.unregister id) c' m fuel (k + 1)
+    | (r', c', none) => (r', c', k, true)
+
+/-- `pool idwrap`: a pool stays alive while pools are created and dropped on the same ring
+until the counter comes round to its id. -/
+def idwrapLine (m : Nat) : String :=
+  match newPool {} 0 m with
+  | (r0, c0, a) =>
+    match churn r0 c0 m (m + 8) 0 with
+    | (r, _, k, hit) =>
+      let live := match a with | some a => decide (a ∈ r.live) | none => false
+      s!"idwrap created={k} collided={if hit then 1 else 0} errno=EEXIST live={if live then 1 else 0} read=ok"
+
 /-- `none` before the first `begin`. -/
 abbrev LSt := Option Sys
 
@@ -848,6 +894,14 @@ def stepLine (st : LSt) (toks : List String) : LSt × List String :=
     match st with
     | some s =>
       if s.pool.ps * s.pool.bs ≤ 8388608 ∧ !s.pendingOrder then (st, ["resv parked=1 selected=-"])
+      else (st, ["bad-op"])
+    | none => (st, ["bad-op"])
+  | ["pool", "idwrap"] =>
+    -- The group id counter wraps while a pool is alive (second ring): the creation that gets the
+    -- live pool's id fails with EEXIST and must leave that pool registered and usable.
+    match st with
+    | some s =>
+      if s.pool.ps * s.pool.bs ≤ 8388608 ∧ !s.pendingOrder then (st, [idwrapLine 65536])
       else (st, ["bad-op"])
     | none => (st, ["bad-op"])
   | ["pool", "lone"] =>
